@@ -505,6 +505,33 @@ inline MultiIndexSet getLargestCompletion(MultiIndexSet const &current, MultiInd
 /*!
  * \internal
  * \ingroup TasmanianMultiIndexManipulations
+ * \brief Returns \b true if the \b level_limits restrict every dimension and \b mset contains every index allowed by the limits.
+ *
+ * When this holds no refinement or update can ever add a new index, used to terminate growth loops.
+ * \endinternal
+ */
+inline bool isLimitsBoxFull(std::vector<int> const &level_limits, MultiIndexSet const &mset){
+    if (level_limits.empty() || mset.empty()) return false;
+    double box_size = 1.0;
+    for(auto l : level_limits){
+        if (l < 0) return false; // unrestricted dimension
+        box_size *= (double) (l + 1);
+    }
+    if (box_size > (double) mset.getNumIndexes()) return false;
+    size_t num_dimensions = mset.getNumDimensions();
+    double num_inside = 0.0;
+    for(int i=0; i<mset.getNumIndexes(); i++){
+        const int *p = mset.getIndex(i);
+        bool inside = true;
+        for(size_t j=0; j<num_dimensions; j++) if (p[j] > level_limits[j]) inside = false;
+        if (inside) num_inside += 1.0;
+    }
+    return (num_inside >= box_size);
+}
+
+/*!
+ * \internal
+ * \ingroup TasmanianMultiIndexManipulations
  * \brief For a set of \b tensors create an \b mset that contain the children of indexes in \b tensors that are missing from \b exclude and obey the \b level_limits.
  *
  * If \b limited is \b false, then the \b level_limits are ignored.
